@@ -193,6 +193,26 @@ func main() {
 		os.Exit(cmdRun(os.Args[2:]))
 	case "replay":
 		os.Exit(cmdReplay(os.Args[2]))
+	case "warm":
+		os.MkdirAll(filepath.Join(verifDir, "out"), 0o755)
+		ovPath := filepath.Join(verifDir, "out", "overlay.warm.json")
+		writeOverlayJSON(ovPath)
+		defer os.Remove(ovPath)
+		var pk []string
+		for d, t := range harnessDirs {
+			if d != "verifrt" {
+				pk = append(pk, "./"+t)
+			}
+		}
+		cmd := exec.Command("go", append([]string{"test", "-vet=off", "-count=1", "-overlay", ovPath, "-run", "^$"}, pk...)...)
+		cmd.Dir = repoDir
+		cmd.Env = append(os.Environ(), goEnv...)
+		out, err := cmd.CombinedOutput()
+		fmt.Print(string(out))
+		if err != nil {
+			fmt.Fprintln(os.Stderr, "warm-up failed:", err)
+			os.Exit(1)
+		}
 	case "list":
 		var dirs []string
 		for d := range harnessDirs {
@@ -319,6 +339,9 @@ func printResult(res *HarnessResult, verbose bool) {
 	}
 	for ev := range res.Events {
 		fmt.Println("   event:", ev)
+	}
+	for p, n := range res.Panics {
+		fmt.Printf("   panic-caught×%d: %s\n", n, p)
 	}
 	for n := range res.InitNotes {
 		fmt.Println("   init-note:", n)
